@@ -318,6 +318,80 @@ pub fn exec_u(w: &mut World, op: &Op, rest: &str, env: &mut Env) {
             w.u[dst] = if r.bit_len() > 3999 { &r % &m_digest } else { r };
             env.res(Pool::U, dst);
         }
+        "rand" => {
+            // dashu's samplers driven by the simulator's generator
+            use dashu_int::rand::{UniformBelow, UniformBits};
+            use rand::{distributions::Distribution, Rng};
+            let bits = [0usize, 1, 63, 64, 65, 127, 128, 129, 192, 200, 700, 3000][(op.n.unsigned_abs() % 12) as usize];
+            let (lo, hi) = if w.u[a] <= w.u[b] { (w.u[a].clone(), w.u[b].clone()) } else { (w.u[b].clone(), w.u[a].clone()) };
+            let (ilo, ihi) = if w.i[a] <= w.i[b] { (w.i[a].clone(), w.i[b].clone()) } else { (w.i[b].clone(), w.i[a].clone()) };
+            let mut rng = SimRng { state: (op.m as u64) | 1, mode: (op.m.unsigned_abs() >> 20) as u8, env: &mut *env };
+            enum Out {
+                U(UBig, bool),
+                I(IBig, bool),
+            }
+            let out = match form % 8 {
+                0 => {
+                    let v: UBig = UniformBits::new(bits).sample(&mut rng);
+                    let ok = v.bit_len() <= bits;
+                    Out::U(v, ok)
+                }
+                1 => {
+                    let v: IBig = UniformBits::new(bits).sample(&mut rng);
+                    let ok = v.bit_len() <= bits;
+                    Out::I(v, ok)
+                }
+                2 => {
+                    if hi.is_zero() {
+                        return env.skip();
+                    }
+                    let v: UBig = UniformBelow::new(&hi).sample(&mut rng);
+                    let ok = v < hi;
+                    Out::U(v, ok)
+                }
+                3 => {
+                    if hi.is_zero() {
+                        return env.skip();
+                    }
+                    let v: IBig = UniformBelow::new(&hi).sample(&mut rng);
+                    let ok = v.clone().unsigned_abs() < hi;
+                    Out::I(v, ok)
+                }
+                // empty ranges panic (documented)
+                4 => {
+                    let v: UBig = rng.gen_range(lo.clone()..hi.clone());
+                    let ok = lo <= v && v < hi;
+                    Out::U(v, ok)
+                }
+                5 => {
+                    let v: UBig = rng.gen_range(lo.clone()..=hi.clone());
+                    let ok = lo <= v && v <= hi;
+                    Out::U(v, ok)
+                }
+                6 => {
+                    let v: IBig = rng.gen_range(ilo.clone()..ihi.clone());
+                    let ok = ilo <= v && v < ihi;
+                    Out::I(v, ok)
+                }
+                _ => {
+                    let v: IBig = rng.gen_range(ilo.clone()..=ihi.clone());
+                    let ok = ilo <= v && v <= ihi;
+                    Out::I(v, ok)
+                }
+            };
+            match out {
+                Out::U(v, ok) => {
+                    env.emit_u64("in_range", ok as u64);
+                    w.u[dst] = v;
+                    env.res(Pool::U, dst);
+                }
+                Out::I(v, ok) => {
+                    env.emit_u64("in_range", ok as u64);
+                    w.i[dst] = v;
+                    env.res(Pool::I, dst);
+                }
+            }
+        }
         "sparse" => {
             // a few set bits far apart (rounding edges: sticky bits, ties, leading 1000..0 patterns of the estimators)
             let mut x = op.n as u64;
@@ -357,6 +431,11 @@ pub fn exec_u(w: &mut World, op: &Op, rest: &str, env: &mut Env) {
             let f = v.to_f64();
             env.emit_u64("v64", matches!(f, dashu_base::Approximation::Exact(_)) as u64);
             env.emit_f64("f64", f.value());
+            // the estimator's special cases sit at leading patterns like 1000..0: the bounds must bracket the value
+            let (lo, hi) = v.log2_bounds();
+            env.emit_u64("log2in", log2_bounds_hold(&v, lo, hi) as u64);
+            let (lo, hi) = (&v + UBig::ONE).log2_bounds();
+            env.emit_u64("log2in1", log2_bounds_hold(&(&v + UBig::ONE), lo, hi) as u64);
             w.u[dst] = v;
             env.res(Pool::U, dst);
         }
@@ -931,6 +1010,58 @@ pub fn exec_u(w: &mut World, op: &Op, rest: &str, env: &mut Env) {
 /// a small-to-medium constant derived from the op's literal (used by re-derivation routes)
 fn lit_small(op: &Op) -> UBig {
     UBig::from_le_bytes(&op.lit)
+}
+
+/// Random number generator owned by the simulator (the seam behind dashu's `rand` feature): a seeded stream, optionally
+/// thinned out (many zero words: results must shrink back to the inline form) or saturated, and a callback fault point
+/// on every draw (a panic in the middle of filling a fresh buffer).
+pub struct SimRng<'a> {
+    pub state: u64,
+    pub mode: u8,
+    pub env: &'a mut Env,
+}
+impl<'a> SimRng<'a> {
+    fn draw(&mut self) -> u64 {
+        if let Some(FaultKind::CbPanic) = self.env.cb_tick() {
+            panic!("dsim: rng panic");
+        }
+        let mut x = self.state;
+        x ^= x << 13;
+        x ^= x >> 7;
+        x ^= x << 17;
+        self.state = x;
+        let y = x.wrapping_mul(0x2545F4914F6CDD1D);
+        match self.mode % 4 {
+            1 => y & x.rotate_left(17) & x.rotate_left(31) & x.rotate_left(43),
+            2 => {
+                if y & 3 == 0 {
+                    y
+                } else {
+                    0
+                }
+            }
+            3 => y | x.rotate_left(21) | x.rotate_left(37),
+            _ => y,
+        }
+    }
+}
+impl<'a> rand::RngCore for SimRng<'a> {
+    fn next_u32(&mut self) -> u32 {
+        (self.draw() >> 32) as u32
+    }
+    fn next_u64(&mut self) -> u64 {
+        self.draw()
+    }
+    fn fill_bytes(&mut self, dest: &mut [u8]) {
+        for chunk in dest.chunks_mut(8) {
+            let v = self.draw().to_le_bytes();
+            chunk.copy_from_slice(&v[..chunk.len()]);
+        }
+    }
+    fn try_fill_bytes(&mut self, dest: &mut [u8]) -> Result<(), rand::Error> {
+        self.fill_bytes(dest);
+        Ok(())
+    }
 }
 
 /// Iterator owned by the simulator: may panic midway (fault kind F6).
